@@ -90,12 +90,81 @@ def table(r, names=None, strings=None, falsy_bias=0.0):
     return rows
 
 
+LOOKALIKES = [0, False, 1, True, 1.0, 0.0, -0.0, "1", "0", "", None, "true", 2, "a", "b", [], {}, [1], [True], {"a": 1}, {"a": True}, 10, "10"]
+SIZES = [63, 64, 65, 100, 127, 128, 129, 200, 255, 256, 257, 300]
+BIG_SIZES = [1000, 1023, 1024, 1025, 4095, 4096, 4097, 8191, 8192, 8193, 10000, 16384, 16385, 65535, 65536, 65537, 70000]
+
+
+def wide(r, names=None, size=None):
+    """A wide array or object (around typical size thresholds) of look-alike values and small records."""
+    n = size or r.choice(SIZES)
+    kind = r.random()
+    if kind < 0.5:
+        items = [fresh(r.choice(LOOKALIKES)) for _ in range(n)]
+    elif kind < 0.8:
+        cols = (names or SIMPLE_NAMES)[:2]
+        items = [{c: fresh(r.choice(LOOKALIKES)) for c in cols if r.random() < 0.8} for _ in range(n)]
+    else:
+        items = [r.choice([i, i % 7, str(i % 5), i % 2 == 0, float(i % 3), None]) for i in range(n)]
+    if r.random() < 0.2:
+        return {"k%d" % i: v for i, v in enumerate(items)}
+    return items
+
+
+class ListSub(list):
+    """A list subclass: json-like data does not have to be built from the exact built-in types."""
+
+
+class DictSub(dict):
+    """A dict subclass (like collections.OrderedDict)."""
+
+
+def exotic(v, seed):
+    """Rebuild v with dict/list *subclasses* (OrderedDict, plain subclasses) at pseudo-randomly chosen nested
+    containers (deterministic in seed).
+
+    The root keeps its built-in type; values, member order and sharing-free structure are unchanged.
+    """
+    import collections  # noqa: PLC0415
+
+    state = [seed & 0xFFFFFFFF]
+
+    def nxt():
+        state[0] = (state[0] * 1103515245 + 12345) & 0x7FFFFFFF
+        return state[0] >> 8
+
+    def rec(x, top):
+        if isinstance(x, dict):
+            items = [(k, rec(c, False)) for k, c in x.items()]
+            # (collections.defaultdict is deliberately not used: looking up a missing name *creates* it, which is
+            # that type's documented behaviour and not a JSON value's)
+            k = nxt() % 3 if not top else 2
+            if k == 0:
+                return collections.OrderedDict(items)
+            if k == 1:
+                return DictSub(items)
+            return dict(items)
+        if isinstance(x, list):
+            items = [rec(c, False) for c in x]
+            if not top and nxt() % 2 == 0:
+                return ListSub(items)
+            return items
+        return x
+
+    return rec(v, True)
+
+
 def container(r, depth=3, names=None, budget=None, strings=None, falsy_bias=0.0):
     """A non-scalar value (so that queries have something to select)."""
     names = names or SIMPLE_NAMES
     if budget is None:
         budget = [25]
     k = r.random()
+    if k > 0.96:
+        w = wide(r, names)
+        if r.random() < 0.5:
+            return w
+        return {r.choice(list(names)): w, r.choice(list(names)): scalar(r, strings)}
     if k < 0.3:
         return table(r, names, strings, falsy_bias)
     if k < 0.45:
